@@ -31,6 +31,7 @@ pub fn run(id: &str) -> Result<String, String> {
         "F64" => f64_crai(),
         "F69" => f69(),
         "F75" => f75(),
+        "F77" => f77(),
         _ => Err(format!("unknown witness {id}")),
     }
 }
@@ -847,4 +848,26 @@ fn f75() -> Result<String, String> {
     }
     let _ = std::panic::take_hook();
     if bad.is_empty() { Ok(format!("\"cases\":{cases}")) } else { Err(format!("the lazy VCF record's genotype iterator PANICS on GT values with a multi-byte character: {}", bad.join(", "))) }
+}
+
+/// F77 (known): single-byte substitutions in a CRAM file with uncompressed blocks, checksums re-sealed, that make the reconstruction of a
+/// record's bases panic (the lazy sequence iterator returns bytes and has no way to report a feature position or reference range that does
+/// not fit).  Positions found by bounded-file-mutations (thorough); replayed here so that the finding shows in every run.
+fn f77() -> Result<String, String> {
+    static LOC: std::sync::Mutex<String> = std::sync::Mutex::new(String::new());
+    // the seed file is EMBEDDED: the writer's output is not byte-stable across processes (hash-map order of the tag dictionary)
+    let hexs = include_str!("f77_seed.hex").trim();
+    let seed: Vec<u8> = (0..hexs.len() / 2).map(|i| u8::from_str_radix(&hexs[2 * i..2 * i + 2], 16).unwrap()).collect();
+    let regions = crate::hostile::cram_sealed_regions_pub(&seed);
+    if std::panic::catch_unwind(|| crate::hostile::run_cram_pub(&seed)).is_err() { return Err("UNDECIDED: the embedded seed file itself makes the reader panic".into()); }
+    std::panic::set_hook(Box::new(|info| { if let Some(l) = info.location() { let f = l.file(); let f = match f.find("/noodles-") { Some(i) => &f[i + 1..], None => f }; *LOC.lock().unwrap() = format!("{}:{}", f, l.line()); } }));
+    let mut sites: Vec<String> = Vec::new();
+    for (pos, byte) in [(803usize, 0u8), (1086, 0), (798, 255), (1312, 0), (1079, 127), (1417, 0)] {
+        let mut x = seed.clone(); x[pos] = byte;
+        let y = crate::hostile::cram_reseal(&seed, &regions, &x);
+        if std::panic::catch_unwind(|| crate::hostile::run_cram_pub(&y)).is_err() { let l = LOC.lock().unwrap().clone(); if !sites.contains(&l) { sites.push(l); } }
+    }
+    let _ = std::panic::take_hook();
+    sites.sort();
+    if sites.is_empty() { Ok("\"cases\":6".into()) } else { Err(format!("reading a CRAM file with one substituted byte (checksum re-sealed) PANICS while the bases of a record are reconstructed, at: {}", sites.join(", "))) }
 }
